@@ -919,7 +919,7 @@ class VM:
                 return mm(self, fn.__self__, args, kwargs)
         if isinstance(fn, BoundModel):
             if type(fn.obj) in self.PLAIN and not deep_sym(args) and not deep_sym(kwargs) and fn.name is not None \
-                    and not any(isinstance(a, SymText) for a in args):
+                    and not any(isinstance(a, SymText) or hasattr(a, '__next__') for a in args):
                 return getattr(fn.obj, fn.name)(*args, **kwargs)     # nothing symbolic: the real method
             return fn.model(self, fn.obj, args, kwargs)
         if isinstance(fn, types.FunctionType):
